@@ -139,7 +139,10 @@ def set_size(image, sid):
 
 class _H(http.server.BaseHTTPRequestHandler):
     def do_GET(self):
-        name = self.path.lstrip("/")
+        path = self.path.split("?", 1)[0]
+        name = os.path.basename(path)
+        if path.startswith("/d1/"):
+            name = "b.gif"       # another directory, same file name, different picture
         if name.startswith("text"):
             body, code = b"this is not an image at all\n" * 4, 200
         elif name in FILES:
@@ -311,21 +314,24 @@ def variant_of(image, style, fname, src, alpha, method, frame, rp):
 
 
 def exc_name(e):
-    if isinstance(e, R.Fault):
-        return "Fault"
+    for cls, name in ((R.Fault, "Fault"), (R.FaultAttr, "FaultAttr"), (R.FaultStop, "FaultStop"),
+                      (R.FaultCustom, "FaultCustom"), (R.FaultKI, "FaultKI")):
+        if isinstance(e, cls):
+            return name
     return type(e).__name__
 
 
 class Obs:
     """what the oracle needs about one run of the real code"""
     __slots__ = ("fd_delta", "fd_delta_after_drop", "live", "source_ok", "size_ok", "temp_ok", "frames_ok", "note",
-                 "unclosed", "unclosed_fail")
+                 "unclosed", "unclosed_fail", "skip")
 
     def __init__(self):
         self.fd_delta = self.fd_delta_after_drop = 0
         self.live = []
         self.unclosed = []
         self.unclosed_fail = []
+        self.skip = False
         self.source_ok = self.size_ok = self.temp_ok = self.frames_ok = True
         self.note = ""
 
@@ -437,7 +443,9 @@ class C11(Property):
                 c = self.gen_res(rng)
                 if c is not None:
                     yield c
-            elif r < 0.95:
+            elif r < 0.945:
+                yield self.gen_urls(rng)
+            elif r < 0.955:
                 yield self.gen_ctor(rng)
             elif r < 0.97:
                 m = rng.choice(["lines", "whole", "anim"])
@@ -453,6 +461,107 @@ class C11(Property):
                 n = rng.choice([1, NFRAMES[nf_name] - 1, NFRAMES[nf_name], NFRAMES[nf_name] + 1, 100])
                 yield Case(f"cached {NFRAMES[nf_name]} {rep} {b(is_bool)} {b(bv)} {n}",
                            dict(fname=nf_name, rep=rep, cached=(bv if is_bool else n)), "cached", True)
+
+    URL_KEYS = ["http://127.0.0.1:{p}/a.gif", "http://localhost:{p}/a.gif", "http://127.0.0.1:{p}/d1/a.gif",
+                "http://127.0.0.1:{p}/b.gif", "http://127.0.0.1:{p}/a.gif?v=2", "http://127.0.0.1:{p}/missing.gif"]
+    URL_OWN = ["a.gif", "a.gif", "b.gif", "b.gif", "a.gif", None]
+
+    def gen_urls(self, rng, ops=None):
+        """several URL-sourced images alive at once: the same URL twice, the same file name on another host / in
+        another directory, other names; opens, renders, closes interleaved"""
+        if ops is None:
+            ops, n_img = [], 0
+            for _ in range(rng.randrange(4, 13)):
+                x = rng.random()
+                if x < 0.4 or n_img == 0:
+                    k = rng.choice([0, 0, 1, 2, 3, 4, 5])
+                    ops.append(f"o {k} {b(k != 5)}")
+                    n_img += k != 5
+                elif x < 0.75:
+                    ops.append(f"r {rng.randrange(n_img + (rng.random() < 0.1))}")
+                else:
+                    ops.append(f"c {rng.randrange(n_img)}")
+        return Case(f"urls {len(ops)} " + " ".join(ops), dict(ops=ops), "urls", True)
+
+    def impl_urls(self, case):
+        obs = self.obs[id(case)] = Obs()
+        port = server_port()
+        R.quiesce()
+        tmp_before = set(os.listdir(common._TEMP_DIR))
+        base = R.fd_count()
+        imgs, paths, own, closed, out = [], [], [], [], []
+
+        def expected(fname):
+            key = ("urls-own", fname)
+            if key not in self.direct:
+                im = BlockImage.from_file(FILES[fname], width=3)
+                self.direct[key] = str(im)
+                im.close()
+            return self.direct[key]
+
+        def judge(what):
+            if not obs.note:
+                obs.note = what
+
+        for o in case.data["ops"]:
+            t = o.split()
+            if t[0] == "o":
+                k = int(t[1])
+                try:
+                    im = BlockImage.from_url(self.URL_KEYS[k].format(p=port), width=3)
+                    imgs.append(im)
+                    paths.append(im._source)
+                    own.append(self.URL_OWN[k])
+                    closed.append(False)
+                    ans = "ok"
+                except Exception:  # noqa: BLE001
+                    ans = "err"
+            elif t[0] == "r":
+                i = int(t[1])
+                if i >= len(imgs):
+                    ans = "noimg"
+                else:
+                    try:
+                        got = str(imgs[i])
+                        ans = "ok"
+                        if got != expected(own[i]):
+                            judge(f"foreign-data: image {i} ({own[i]}) renders another download's data")
+                    except TermImageError:
+                        ans = "err TermImageError"
+                    except FileNotFoundError:
+                        ans = "err FileNotFoundError"
+                        if not closed[i]:
+                            judge(f"copy-missing: image {i} is open but its copy {os.path.basename(paths[i])} is gone")
+                    except Exception as e:  # noqa: BLE001
+                        ans = "err " + type(e).__name__
+            else:
+                i = int(t[1])
+                if i >= len(imgs):
+                    ans = "noimg"
+                else:
+                    imgs[i].close()
+                    closed[i] = True
+                    ans = "ok"
+            flags = [os.path.exists(p_) for p_ in paths]
+            for i, (fl, cl) in enumerate(zip(flags, closed)):
+                if fl == cl:
+                    judge((f"copy-missing: image {i} is open but its copy is gone" if cl is False else
+                           f"copy-left: image {i} is closed but its copy still exists") + f" after `{o}`")
+            if len(set(paths)) != len(paths):
+                judge("copy-shared: two images share one temporary file " + os.path.basename(paths[-1]))
+            out.append(f"{ans} " + ("".join(b(x) for x in flags) or "-"))
+        # the rest goes by garbage collection
+        im = None
+        imgs.clear()
+        R.quiesce()
+        left = set(os.listdir(common._TEMP_DIR)) - tmp_before
+        if left:
+            judge(f"copy-left: files {sorted(left)[:3]} remain after every image was closed or collected")
+            for x in left:
+                os.remove(os.path.join(common._TEMP_DIR, x))
+        if fd_settle(base, 25) > 0:
+            judge("fd-leak: descriptors above the baseline after every URL image was dropped")
+        return "ok " + "|".join(out)
 
     def gen_ctor(self, rng):
         """argument validation of `ImageIterator(...)` / of the image constructor: nothing may be opened or leaked"""
@@ -526,6 +635,32 @@ class C11(Property):
                 ops = ["n"] * 7
                 yield self.iter_case(style, "a.gif", "file", "float", m, 2, True, False, 5, 0, 0, ops, "iter-fixed")
         yield self.iter_case("iterm2", "b.gif", "pil", "none", "A", 1, False, False, 5, 0, 0, ["n"] * 3, "iter-fixed")
+        # cached iterators with non-default style arguments whose size changes after the first loop: the frames
+        # re-rendered from then on must still be format(image, spec) — spec's style arguments included
+        for style, method in (("kitty", "Wz7m1c9"), ("kitty", "Lz-2"), ("iterm2", "Wm1c9"), ("iterm2", "Lm1")):
+            yield self.iter_case(style, "a.gif", "file", "float", method, 3, True, True, 5, 0, 0,
+                                 ["n"] * 3 + ["z 1"] + ["n"] * 4 + ["z 3"] + ["n"] * 3, "iter-styleargs")
+        # every class of failure `__next__` distinguishes, at a Pillow call in the middle of the second frame
+        for style, method in (("block", ""), ("kitty", "W"), ("iterm2", "L")):
+            base_d = dict(op="iter", style=style, fname="a.gif", src="file", alpha="float", method=method, width=3,
+                          dyn=False, ending="close", need_n=False, fault=None)
+            c2 = self.res_case(dict(base_d, nframes=2), None, None)
+            if c2 is None:
+                continue
+            calls = [e.split()[0] for e in self.impl(c2)[3:].split("|")[0].split("; ") if e and not e.startswith("close")]
+            # the last Pillow call of the second frame that nothing wraps (not convert / resize)
+            idx = max(i for i, k in enumerate(calls) if k in ("tobytes", "save", "getdata"))
+            for cls in ("value", "attr", "stop", "custom", "ki"):
+                c = self.res_case(dict(base_d, nframes=2, cls=cls), None, idx)
+                if c is not None:
+                    c.kind = "res-iter-cls-" + cls
+                    yield c
+        # two or three URL images at once that could be confused with each other
+        for ops in (["o 0 1", "o 0 1", "r 0", "r 1", "c 0", "r 1", "c 1"],
+                    ["o 0 1", "o 2 1", "r 0", "r 1", "c 1", "r 0", "c 0"],
+                    ["o 1 1", "o 0 1", "o 4 1", "c 1", "r 0", "r 2", "c 0", "r 2", "c 2"],
+                    ["o 0 1", "o 3 1", "o 5 0", "c 0", "r 1", "o 0 1", "r 2", "c 1", "r 2"]):
+            yield self.gen_urls(None, ops)
         # every way `from_url` can end, once; close() when the temp file is already gone
         for http, init_ok, closes, rm in (("ok", True, 0, False), ("ok", True, 2, True), ("ok", False, 0, False),
                                           ("text", True, 0, False), ("notfound", True, 0, False),
@@ -576,6 +711,10 @@ class C11(Property):
         src = rng.choice(["file", "file", "pil"])
         alpha = rng.choice(["none", "float", "str"])
         method = "" if style == "block" else rng.choice(["L", "W"] + (["A", "A"] if style == "iterm2" else []))
+        if style == "kitty" and rng.random() < 0.5:      # non-default style arguments travel with every frame,
+            method += rng.choice(["z7", "z-3m1", "m1c9", "z2c0"])   # re-rendered ones included
+        elif style == "iterm2" and rng.random() < 0.5:
+            method += rng.choice(["m1", "c9", "m1c0"])
         rep = rng.choice([1, 1, 2, 2, 3, -1])
         is_bool = rng.random() < 0.6
         bv = rng.random() < 0.6
@@ -684,11 +823,20 @@ class C11(Property):
             d["fault"] = fault if fault < ncalls else None
         lf = d["natural"] if d.get("natural") is not None else d["fault"]
         f = "none" if lf is None else f"some {lf}"
+        if d["op"] == "iter" and d["fault"] is not None and "cls" not in d:
+            # the class of the injected exception: `__next__` treats them differently
+            r_ = (rng or random.Random(d["fault"] * 7 + len(tokens))).random()
+            d["cls"] = "value" if r_ < 0.3 else "attr" if r_ < 0.55 else "stop" if r_ < 0.7 else \
+                "custom" if r_ < 0.88 else "ki"
+        cls = d.get("cls", "value") if d["fault"] is not None else "value"
+        d["cls"] = cls
         kind = f"res-{d['op']}" + ("-natural" if d.get("natural") is not None else "-fault" if d["fault"] is not None else "")
         if d.get("target") and d.get("_idx", {}).get(d["target"]) == d["fault"] and d["fault"] is not None:
             kind += "-" + d["target"]
         if d["op"] == "iter":
             kind += "-" + d["ending"]
+        if cls != "value":
+            return Case(f"resx {tokens} {f} {cls}", d, kind + "-" + cls, ncalls > 0)
         return Case(f"res {tokens} {f}", d, kind, ncalls > 0)
 
     def res_tokens(self, d):
@@ -760,8 +908,10 @@ class C11(Property):
         try:
             if op == "iter":
                 return self.impl_iter(case)
-            if op == "res":
+            if op in ("res", "resx"):
                 return self.impl_res(case)
+            if op == "urls":
+                return self.impl_urls(case)
             if op == "meth":
                 return self.impl_meth(case)
             if op in ("ictor", "bctor"):
@@ -965,7 +1115,7 @@ class C11(Property):
                                      f"temp={b(temp)}", "uac=0"])
         style, fname, src = d["style"], d["fname"], d["src"]
         base = R.fd_count()
-        rec.reset(d["fault"])
+        rec.reset(d["fault"], d.get("cls", "value"))
         image, pimg = make_image(style, fname, src, d["width"])
         if pimg is not None:
             R.adopt_source(pimg)
@@ -1027,9 +1177,14 @@ class C11(Property):
                         image.close()
                         it.close()
                         keep_it = True
-            except Exception as e:  # noqa: BLE001
+            except (Exception, R.FaultKI) as e:  # noqa: BLE001
                 exc = exc_name(e)
                 held = e                  # a caller may keep the exception (and with it the frames' locals)
+                if exc == "FaultKI":
+                    # a BaseException is outside the property: `__next__` has no clause for it, the iterator stays
+                    # as it is (and referenced) — compared with the model, not judged by the oracle
+                    keep_it = True
+                    obs.skip = True
             finally:
                 sys.stdout = stdout
                 rec.on = False
@@ -1042,7 +1197,8 @@ class C11(Property):
             # the call has raised and the exception is still referenced: the garbage collector cannot help.
             # Where the library promises to clean up (a failing mode conversion / resize / re-encoding is turned
             # into a RenderError after closing what it opened), every image it opened must be closed NOW.
-            if exc == "RenderError":
+            if exc == "RenderError" or (op == "iter" and exc != "FaultKI"):
+                # … and whatever makes `ImageIterator.__next__` (or its constructor) fail, the iterator has let go
                 opens = [e.split()[1] for e in rec.events if e.startswith("open o")]
                 allowed = set(opens[1:2]) if op == "draw" else set()
                 obs.unclosed_fail = [x for x in rec.open_unclosed() if x not in allowed]
@@ -1052,6 +1208,10 @@ class C11(Property):
                 obs.source_ok = False
                 obs.note = "the caller's PIL image was closed by the failing operation"
             held = None
+        if op == "iter" and any(e.startswith("FAULT") for e in rec.events) and exc in ("-", "StopIteration"):
+            obs.frames_ok = False
+            obs.note = ("a Pillow call failed while a frame was being produced, but next() "
+                        + ("reported exhaustion (StopIteration)" if exc != "-" else "returned normally"))
         # the operation has returned (or raised); nothing has been dropped or collected by the harness yet:
         # which images did the library open, never close, and leave (or let be collected) with the file open?
         if exc == "-" and d["fault"] is None:
@@ -1128,8 +1288,10 @@ class C11(Property):
                                f"still image) is not rendered as the WHOLE method renders it ({d['fname']}, width {d['w']})")
             return None
         obs = self.obs.get(id(case))
-        if obs is None:
+        if obs is None or obs.skip:
             return None
+        if op == "urls":
+            return Failure("url-copies/" + obs.note.split(":")[0], obs.note) if obs.note else None
         where = self.where(d, op)
         if not obs.frames_ok:
             return Failure(f"frames/{where}", obs.note)
